@@ -65,7 +65,10 @@ type Req struct {
 	Method string `json:"method"`
 	Target string `json:"target"` // raw request target (path + optional query)
 	AE     string `json:"ae"`
-	Accept string `json:"accept"`
+	// Replace: not a request; at this point of the sequence the operator replaces the origin
+	// Casketfile by a new file with the same text (write + rename: new inode, as editors do)
+	Replace bool   `json:"replace,omitempty"`
+	Accept  string `json:"accept"`
 }
 
 type Case struct {
@@ -191,6 +194,13 @@ func runCase(c *Case) (nontrivial int, err error) {
 	}
 	defer func() { conn.Close() }()
 	for i, r := range c.Reqs {
+		if r.Replace {
+			if b, rerr := os.ReadFile(origin); rerr == nil {
+				os.WriteFile(origin+".verif-new", b, 0o644)
+				os.Rename(origin+".verif-new", origin)
+			}
+			continue
+		}
 		hdr := [][2]string{}
 		if r.AE != "-" {
 			hdr = append(hdr, [2]string{"Accept-Encoding", r.AE})
@@ -431,6 +441,9 @@ func TestFiles(t *testing.T) {
 		c := &Case{Site: genSite(t)}
 		n := rapid.IntRange(10, 40).Draw(t, "nreq")
 		for i := 0; i < n; i++ {
+			if i > 2 && rapid.IntRange(0, 24).Draw(t, fmt.Sprintf("rep%d", i)) == 0 {
+				c.Reqs = append(c.Reqs, Req{Replace: true})
+			}
 			c.Reqs = append(c.Reqs, genReq(t, fmt.Sprintf("r%d", i)))
 		}
 		if vt.Open("archive-includes-hidden") {
